@@ -128,7 +128,8 @@ Variable O : oracle.
 
 (* what a statement of this fragment leaves alone *)
 Definition keeps (r r' : rt) : Prop :=
-  r_prog r' = r_prog r /\ r_tron r' = r_tron r /\ r_vars r' = r_vars r /\ r_stack r' = r_stack r /\ r_slen r' = r_slen r.
+  r_prog r' = r_prog r /\ r_tron r' = r_tron r /\ r_vars r' = r_vars r /\ r_stack r' = r_stack r /\ r_slen r' = r_slen r
+  /\ r_col r' = r_col r.
 
 Lemma code_at_app r a x y : code_at r a (x ++ y) -> code_at r a x /\ code_at r (a + lenN x) y.
 Proof.
@@ -228,6 +229,33 @@ Proof.
   cbn [set_pc r_pc r1]. unfold q. rewrite El. lia.
 Qed.
 
+(* PRINT, one item: the item's value is computed, OpPrint takes it off the stack, moves the column and returns the text *)
+Definition text_of (v : val) : str := match v with VStr t => t | _ => fmt_val v ++ [c_space] end.
+
+Lemma vm_print_item : forall r e, r_tron r = false -> pure e = true -> code_at r (r_pc r) (postfix e ++ [OpPrint]) ->
+  r_slen r + lenN (postfix e) <= MAX_POOL ->
+  match eval_pure O (r_vars r) e with
+  | Ok v => exec_loop_x O (length (postfix e) + 1) false r
+            = (set_pc (set_col r (advance_col (r_col r) (text_of v))) (r_pc r + lenN (postfix e) + 1), Ok (Some (EvPrint (text_of v))))
+  | Err er => snd (exec_loop_x O (length (postfix e) + 1) false r) = Err er
+  | _ => True
+  end.
+Proof.
+  intros r e Htr Hp Hat Hs. apply code_at_app in Hat. destruct Hat as [Hat1 Hat2].
+  destruct (fetch_loop_runs_code O (postfix e) false r (postfix_expr_ops e Hp) Htr Hat1) as [H1 H2].
+  pose proof (run_postfix O false e r Hp Hs) as Hpf. rewrite exec_loop_split.
+  destruct (eval_pure O (r_vars r) e) as [v | er | |]; [| | exact I | exact I].
+  2:{ destruct (exec_loop_x O (length (postfix e)) false r) as [r1 x]. cbn [snd] in H1. rewrite Hpf in H1. cbn in H1. subst x. reflexivity. }
+  rewrite Hpf in H1, H2. cbn [fst snd no_event] in H1, H2. specialize (H2 tt eq_refl).
+  destruct (exec_loop_x O (length (postfix e)) false r) as [r1 x]. cbn [fst snd] in H1, H2. subst r1 x.
+  set (r1 := set_pc (pushed r v) (r_pc r + lenN (postfix e))).
+  assert (Hop : nthN (l_ops (pg_link (r_prog r1))) (r_pc r1) = Some OpPrint).
+  { specialize (Hat2 0%nat OpPrint eq_refl). rewrite N.add_0_r in Hat2. exact Hat2. }
+  rewrite (loop_one O false r1 OpPrint Htr Hop). cbn [exec_op]. unfold rbind, do_print, rbind, pop, rmod, rret.
+  cbn [r1 set_pc pushed set_stack_len r_stack r_slen r_pc r_col set_col]. fold (text_of v).
+  replace (r_slen r + 1 - 1) with (r_slen r) by lia. destruct r; reflexivity.
+Qed.
+
 End VMStmts.
 
 (* ====================================================================================================
@@ -317,6 +345,38 @@ Proof.
   exists l1, ss, l2. split; [exact E | reflexivity].
 Qed.
 
+(* PRINT: the items are evaluated and printed from left to right; an item that fails stops the statement after the items
+   before it have been printed *)
+Fixpoint sem_print_items (line : N) (rest : kont) (l : list expr) : SM step_result :=
+  match l with
+  | [] => sret (Go rest)
+  | x :: r =>
+      sdo v <~ eval O 200 line x ;;
+      sdo _ <~ (fun st => (print_text st (match v with VStr t => t | _ => fmt_val v ++ [c_space] end), EvOk tt)) ;;
+      sem_print_items line rest r
+  end.
+
+Lemma sem_exec_print : forall line c es rest s,
+  exec O srcl 200 line (SPrint c es) rest s =
+  match sem_print_items line rest es s with
+  | (st', EvOk r) => (st', r)
+  | (st', EvErr c) => (st', Halt (HError c line))
+  | (st', EvUndef) => (st', Halt HUndefined)
+  end.
+Proof.
+  intros line c es rest s. cbn [exec].
+  assert (E : forall l, (fix go (l : list expr) : SM step_result :=
+                           match l with
+                           | [] => sret (Go rest)
+                           | x :: r =>
+                               sdo v <~ eval O 200 line x ;;
+                               sdo _ <~ (fun st => (print_text st (match v with VStr t => t | _ => fmt_val v ++ [c_space] end), EvOk tt)) ;;
+                               go r
+                           end) l = sem_print_items line rest l).
+  { induction l as [| x r IH]; [reflexivity |]. cbn [sem_print_items]. rewrite <- IH. reflexivity. }
+  rewrite E. reflexivity.
+Qed.
+
 End SemSide.
 
 (* ====================================================================================================
@@ -334,7 +394,9 @@ Inductive gstmt : stmt -> piece -> Prop :=
     gstmt (SGoto c (ESng ce b)) (mkPiece [OpJump 0] [(0, (ce, Z.of_N n))] 0)
 | gs_on : forall c e (ts : list tgt), pure e = true -> (depth e < 200)%nat -> Forall tgt_ok ts -> Forall tgt_sem ts -> lenN ts <= 32767 ->
     gstmt (SOnGoto c e (map tgt_expr ts)) (mkPiece (on_code e ts) (jump_refs (2 + lenN (postfix e)) ts) (-1))
-| gs_end : forall c, gstmt (SEnd c) (mkPiece [OpEnd] [] 0).
+| gs_end : forall c, gstmt (SEnd c) (mkPiece [OpEnd] [] 0)
+| gs_print : forall c es, es <> [] -> forallb pure es = true -> Forall (fun e => (depth e < 200)%nat) es ->
+    gstmt (SPrint c es) (mkPiece (print_code es) [] 0).
 
 Lemma gstmt_fstmt s p : gstmt s p -> fstmt s p.
 Proof. intros H. destruct H; constructor; assumption. Qed.
@@ -420,7 +482,8 @@ Definition at_pos (k : kont) (pc : N) : Prop :=
     k = (tag_line n sr, n) /\ pc = lenN (prog_ops pb) + lenN (flat_map pc_ops pd).
 
 Definition sfacts (st : sst) (r : rt) : Prop :=
-  s_vars st = r_vars r /\ s_locals st = [] /\ s_tron st = false /\ r_tron r = false /\ r_slen r = sl /\ loaded pls r.
+  s_vars st = r_vars r /\ s_locals st = [] /\ s_tron st = false /\ r_tron r = false /\ r_slen r = sl /\ loaded pls r
+  /\ s_col st = r_col r.
 
 Definition Rel (k : kont) (st : sst) (r : rt) : Prop :=
   at_pos k (r_pc r) /\ r_pc r < lenN (prog_ops pls) /\ sfacts st r.
@@ -465,34 +528,107 @@ Qed.
 Lemma piece_fits : forall pb n pd p pr pa, pls = pb ++ (n, pd ++ p :: pr) :: pa -> sl + lenN (pc_ops p) <= MAX_POOL.
 Proof. intros pb n pd p pr pa E. pose proof Hfit as H. rewrite E, prog_ops_split, !lenN_app in H. lia. Qed.
 
+(* a stretch of VM execution and what it prints: budget-bounded calls of the fetch loop, each ending because the budget
+   ran out or because a PRINT returned its text *)
+Inductive vm_steps : rt -> list str -> rt -> Prop :=
+| vs_refl : forall r, vm_steps r [] r
+| vs_quiet : forall r n r1 outs r', exec_loop_x O n false r = (r1, Ok None) -> vm_steps r1 outs r' -> vm_steps r outs r'
+| vs_print : forall r n r1 t outs r', exec_loop_x O n false r = (r1, Ok (Some (EvPrint t))) -> vm_steps r1 outs r' -> vm_steps r (t :: outs) r'.
+
+Lemma vm_steps_trans : forall r o1 r1 o2 r2, vm_steps r o1 r1 -> vm_steps r1 o2 r2 -> vm_steps r (o1 ++ o2) r2.
+Proof.
+  intros r o1 r1 o2 r2 H. induction H as [r | r n ra outs r' E _ IH | r n ra t outs r' E _ IH]; intros H2; cbn [app].
+  - exact H2.
+  - exact (vs_quiet r n ra _ r2 E (IH H2)).
+  - exact (vs_print r n ra t _ r2 E (IH H2)).
+Qed.
+
+Lemma vm_steps_one r n r1 : exec_loop_x O n false r = (r1, Ok None) -> vm_steps r [] r1.
+Proof. intros E. exact (vs_quiet r n r1 [] r1 E (vs_refl r1)). Qed.
+
+(* the texts the reference semantics printed between two of its states (its output list is newest first) *)
+Definition printed (st st2 : sst) (outs : list str) : Prop := s_out st2 = rev (map SePrint outs) ++ s_out st.
+
+Lemma printed_nil st : printed st st []. Proof. reflexivity. Qed.
+Lemma printed_trans st st1 st2 o1 o2 : printed st st1 o1 -> printed st1 st2 o2 -> printed st st2 (o1 ++ o2).
+Proof. unfold printed. intros H1 H2. rewrite H2, H1, map_app, rev_app_distr, app_assoc. reflexivity. Qed.
+
 (* what the VM must do to match one step of the reference semantics *)
-Definition outcome (res : sst * step_result) (r : rt) : Prop :=
+Definition outcome (st : sst) (res : sst * step_result) (r : rt) : Prop :=
   match res with
-  | (st2, Go k') => exists m r2, exec_loop_x O m false r = (r2, Ok None) /\ Rel k' st2 r2
-  | (st2, Halt HEnd) => exists m r2, exec_loop_x O m false r = (r2, Ok (Some EvStopped)) /\ r_vars r2 = s_vars st2
-  | (st2, Halt (HError c _)) => exists m er, snd (exec_loop_x O m false r) = Err er /\ ecode er = c
+  | (st2, Go k') => exists outs r2, vm_steps r outs r2 /\ printed st st2 outs /\ Rel k' st2 r2
+  | (st2, Halt HEnd) => exists outs r1 m r2, vm_steps r outs r1 /\ printed st st2 outs
+                          /\ exec_loop_x O m false r1 = (r2, Ok (Some EvStopped)) /\ r_vars r2 = s_vars st2
+  | (st2, Halt (HError c _)) => exists outs r1 m er, vm_steps r outs r1 /\ printed st st2 outs
+                                  /\ snd (exec_loop_x O m false r1) = Err er /\ ecode er = c
   | _ => True
   end.
 
 Lemma sfacts_keeps st r r' : sfacts st r -> keeps r r' -> sfacts st r'.
 Proof.
-  intros (Hv & Hl & Ht & Hrt & Hs & Hld) (Kp & Kt & Kv & Kst & Ksl). unfold sfacts. rewrite Kv, Kt, Ksl. repeat split; try assumption.
+  intros (Hv & Hl & Ht & Hrt & Hs & Hld & Hc) (Kp & Kt & Kv & Kst & Ksl & Kc). unfold sfacts. rewrite Kv, Kt, Ksl, Kc. repeat split; try assumption.
   unfold loaded. rewrite Kp. exact Hld.
 Qed.
 
 Lemma sfacts_pc st r a : sfacts st r -> sfacts st (set_pc r a).
 Proof. intros H. apply (sfacts_keeps st r); [exact H |]. unfold keeps. cbn. repeat split. Qed.
 
+(* the loop over the items of a PRINT statement *)
+Lemma print_items : forall es st r rest line,
+  forallb pure es = true -> Forall (fun e => (depth e < 200)%nat) es ->
+  r_tron r = false -> code_at r (r_pc r) (print_code es) -> r_slen r + lenN (print_code es) <= MAX_POOL ->
+  s_vars st = r_vars r -> s_locals st = [] -> s_col st = r_col r ->
+  match sem_print_items O line rest es st with
+  | (st2, EvOk res) => res = Go rest /\ exists outs r2, vm_steps r outs r2 /\ printed st st2 outs
+                         /\ r_pc r2 = r_pc r + lenN (print_code es) /\ r_prog r2 = r_prog r /\ r_tron r2 = false
+                         /\ r_vars r2 = r_vars r /\ r_slen r2 = r_slen r
+                         /\ s_vars st2 = s_vars st /\ s_locals st2 = [] /\ s_tron st2 = s_tron st /\ s_col st2 = r_col r2
+  | (st2, EvErr c) => exists outs r1 m er, vm_steps r outs r1 /\ printed st st2 outs
+                        /\ snd (exec_loop_x O m false r1) = Err er /\ ecode er = c
+  | (_, EvUndef) => True
+  end.
+Proof.
+  induction es as [| e es' IH]; intros st r rest line Hp Hd Htr Hat Hs Hv Hloc Hcol.
+  - cbn [sem_print_items sret]. split; [reflexivity |]. exists [], r. unfold print_code, lenN. cbn [flat_map length N.of_nat].
+    rewrite N.add_0_r. repeat split; try reflexivity; try assumption. constructor.
+  - cbn [forallb] in Hp. apply andb_prop in Hp. destruct Hp as [Hpe Hpr]. inversion Hd as [| ? ? Hde Hdr]; subst.
+    change (print_code (e :: es')) with ((postfix e ++ [OpPrint]) ++ print_code es') in *.
+    apply code_at_app in Hat. destruct Hat as [Hat1 Hat2]. rewrite !lenN_app, lenN_one in Hs.
+    pose proof (vm_print_item O r e Htr Hpe Hat1 ltac:(lia)) as Hvm.
+    cbn [sem_print_items]. unfold sbind at 1. rewrite (sem_eval_pure O 200 e st line Hpe Hde Hloc). rewrite Hv.
+    destruct (eval_pure O (r_vars r) e) as [v | er | |]; cbn [of_res]; [| | exact I | exact I].
+    2:{ exists [], r. eexists. exists er. split; [constructor |]. split; [apply printed_nil |]. split; [exact Hvm | reflexivity]. }
+    unfold sbind at 1. fold (text_of v).
+    set (st1 := print_text st (text_of v)). set (r1 := set_pc (set_col r (advance_col (r_col r) (text_of v))) (r_pc r + lenN (postfix e) + 1)).
+    assert (Hp1 : printed st st1 [text_of v]) by reflexivity.
+    assert (Hat' : code_at r1 (r_pc r1) (print_code es')).
+    { unfold r1. cbn [r_pc set_pc]. intros i op Hi. specialize (Hat2 i op Hi). rewrite !lenN_app, lenN_one in Hat2.
+      replace (r_pc r + lenN (postfix e) + 1 + N.of_nat i) with (r_pc r + (lenN (postfix e) + 1) + N.of_nat i) by lia. exact Hat2. }
+    specialize (IH st1 r1 rest line Hpr Hdr Htr Hat' ltac:(unfold r1; cbn; lia) ltac:(unfold st1, r1; cbn; exact Hv) ltac:(unfold st1; cbn; exact Hloc)).
+    assert (Hc1 : s_col st1 = r_col r1).
+    { unfold st1, r1, print_text. cbn. rewrite Hcol. reflexivity. }
+    specialize (IH Hc1).
+    destruct (sem_print_items O line rest es' st1) as [st2 [res | c |]]; [| | exact I].
+    + destruct IH as (Eres & outs & r2 & Hst & Hpr2 & Hpc2 & Hprog & Htr2 & Hv2 & Hsl2 & Hsv & Hsl & Hstr & Hsc).
+      split; [exact Eres |]. exists (text_of v :: outs), r2. split; [exact (vs_print r _ r1 _ outs r2 Hvm Hst) |].
+      split; [exact (printed_trans st st1 st2 [text_of v] outs Hp1 Hpr2) |].
+      unfold r1 in *. cbn [r_pc set_pc r_prog r_vars r_slen set_col] in *. rewrite !lenN_app, lenN_one.
+      repeat split; try assumption; try lia; try (rewrite Hsv; reflexivity); try (rewrite Hstr; reflexivity); try (rewrite Hsv; unfold st1; cbn; exact Hv).
+    + destruct IH as (outs & ra & m & er & Hst & Hpr2 & Herr & Hc).
+      exists (text_of v :: outs), ra, m, er. split; [exact (vs_print r _ r1 _ outs ra Hvm Hst) |].
+      split; [exact (printed_trans st st1 st2 [text_of v] outs Hp1 Hpr2) |]. split; assumption.
+Qed.
+
 Theorem stmt_step : forall sb n sd s sr sa pb pd p pr pa st r,
   srcl = sb ++ (n, sd ++ s :: sr) :: sa -> pls = pb ++ (n, pd ++ p :: pr) :: pa ->
   Forall2 lmatch sb pb -> Forall2 gstmt sd pd -> gstmt s p -> Forall2 gstmt sr pr -> Forall2 lmatch sa pa ->
   r_pc r = lenN (prog_ops pb) + lenN (flat_map pc_ops pd) -> sfacts st r ->
-  outcome (exec O srcl 200 n s (tag_line n sr, n) st) r.
+  outcome st (exec O srcl 200 n s (tag_line n sr, n) st) r.
 Proof.
   intros sb n sd s sr sa pb pd p pr pa st r Es Ep Hb Hd Hs Hr Ha Hpc Hf.
-  pose proof Hf as (Hv & Hloc & Hst & Hrt & Hsl & Hld).
+  pose proof Hf as (Hv & Hloc & Hst & Hrt & Hsl & Hld & Hcol).
   pose proof (piece_fits pb n pd p pr pa Ep) as Hpf.
-  destruct Hs as [c cv i e Hpure Hbi Hdep | c ce b n' Htgt Hsem | c e ts Hpure Hdep Hok Hsem Hlen | c].
+  destruct Hs as [c cv i e Hpure Hbi Hdep | c ce b n' Htgt Hsem | c e ts Hpure Hdep Hok Hsem Hlen | c | c es Hne_es Hpure Hdeps].
   - (* LET *)
     cbn [pc_ops] in Hpf.
     assert (Hat : code_at r (r_pc r) (let_code i e)).
@@ -503,9 +639,11 @@ Proof.
     { unfold let_code in Hpf. rewrite lenN_app in Hpf. lia. }
     pose proof (vm_let O r i e Hrt Hpure Hat Hstk) as Hvm.
     rewrite (sem_exec_let O srcl n c cv i e _ st Hpure Hdep Hloc). rewrite Hv.
-    destruct (eval_pure O (r_vars r) e) as [v | er | |]; cbn [outcome]; [| exists (length (let_code i e)), er; split; [exact Hvm | reflexivity] | exact I | exact I].
-    destruct (var_store (r_vars r) (ident_str i) v) as [vs | er | |]; cbn [outcome]; [| exists (length (let_code i e)), er; split; [exact Hvm | reflexivity] | exact I | exact I].
-    eexists. eexists. split; [exact Hvm |].
+    destruct (eval_pure O (r_vars r) e) as [v | er | |]; cbn [outcome];
+      [| exists [], r, (length (let_code i e)), er; split; [constructor | split; [apply printed_nil | split; [exact Hvm | reflexivity]]] | exact I | exact I].
+    destruct (var_store (r_vars r) (ident_str i) v) as [vs | er | |]; cbn [outcome];
+      [| exists [], r, (length (let_code i e)), er; split; [constructor | split; [apply printed_nil | split; [exact Hvm | reflexivity]]] | exact I | exact I].
+    exists []. eexists. split; [exact (vm_steps_one _ _ _ Hvm) |]. split; [reflexivity |].
     apply (Rel_advance sb n sd _ sr sa pb pd _ pr pa _ _ (postfix e) (OpPop (ident_str i)) Es Ep Hb Hd (gs_let c cv i e Hpure Hbi Hdep) Hr Ha);
       [reflexivity | discriminate | cbn [r_pc set_pc pc_ops]; rewrite Hpc; reflexivity |].
     unfold sfacts. cbn. repeat split; assumption.
@@ -514,7 +652,7 @@ Proof.
     destruct (jump_target n' l El) as (pb' & ps' & pa' & Ep' & Hrel).
     pose proof (loaded_jump pls Hgood r pb n pd _ pr pa lo 0 ce pb' n' ps' pa' Hld Hasc Ep Ep' (or_introl eq_refl)) as Hj.
     rewrite N.add_0_r, <- Hpc in Hj.
-    exists 1%nat, (set_pc r (lenN (prog_ops pb'))). split; [exact (loop_jump O r _ Hrt Hj) |].
+    exists [], (set_pc r (lenN (prog_ops pb'))). split; [exact (vm_steps_one _ _ _ (loop_jump O r _ Hrt Hj)) |]. split; [reflexivity |].
     apply Hrel; [reflexivity | apply sfacts_pc; exact Hf].
   - (* ON .. GOTO *)
     cbn [pc_ops] in Hpf.
@@ -530,13 +668,16 @@ Proof.
     assert (Hstk : r_slen r + 1 + lenN (postfix e) <= MAX_POOL) by lia.
     pose proof (vm_on O r e (Z.of_N (lenN ts)) Hrt Hpure ltac:(lia) Hat Hstk) as Hvm. cbv zeta in Hvm.
     rewrite (sem_exec_on O srcl n c e ts _ st Hpure Hdep Hloc). rewrite Hv.
-    destruct (eval_pure O (r_vars r) e) as [v | er | |]; cbn [outcome]; [| eexists; exists er; split; [exact Hvm | reflexivity] | exact I | exact I].
-    destruct (to_i16 v) as [sel | er | |]; cbn [outcome]; [| eexists; exists er; split; [exact Hvm | reflexivity] | exact I | exact I].
-    destruct (Z.ltb_spec sel 0) as [Hneg | Hnn]; cbn [outcome]; [eexists; eexists; split; [exact Hvm | reflexivity] |].
+    destruct (eval_pure O (r_vars r) e) as [v | er | |]; cbn [outcome];
+      [| exists [], r; eexists; exists er; split; [constructor | split; [apply printed_nil | split; [exact Hvm | reflexivity]]] | exact I | exact I].
+    destruct (to_i16 v) as [sel | er | |]; cbn [outcome];
+      [| exists [], r; eexists; exists er; split; [constructor | split; [apply printed_nil | split; [exact Hvm | reflexivity]]] | exact I | exact I].
+    destruct (Z.ltb_spec sel 0) as [Hneg | Hnn]; cbn [outcome];
+      [exists [], r; eexists; eexists; split; [constructor | split; [apply printed_nil | split; [exact Hvm | reflexivity]]] |].
     destruct Hvm as (r' & Hrun & Hk & Hpc').
     destruct ((sel =? 0) || (Z.of_N (lenN ts) <? sel))%Z eqn:Econd; cbn [outcome].
     + (* no branch: on to the next statement *)
-      eexists. exists r'. split; [exact Hrun |].
+      exists [], r'. split; [exact (vm_steps_one _ _ _ Hrun) |]. split; [reflexivity |].
       assert (Elast : exists c0 x, on_code e ts = c0 ++ [x] /\ x <> OpEnd).
       { unfold on_code. destruct ts as [| t ts'].
         - exists (OpLiteral (VInt (Z.of_N (lenN (@nil tgt)))) :: postfix e), OpOn. cbn [length repeat]. rewrite app_nil_r. split; [reflexivity | discriminate].
@@ -554,23 +695,46 @@ Proof.
       destruct (line_stmts srcl (snd t)) as [l |] eqn:El; cbn [outcome]; [| exact I].
       destruct (jump_target (snd t) l El) as (pb' & ps' & pa' & Ep' & Hrel).
       pose proof (jump_refs_nth ts (2 + lenN (postfix e)) _ t Et) as Hin.
-      pose proof (sfacts_keeps st r r' Hf Hk) as Hf'. pose proof Hf' as (_ & _ & _ & Hrt' & _ & Hld').
+      pose proof (sfacts_keeps st r r' Hf Hk) as Hf'. pose proof Hf' as (_ & _ & _ & Hrt' & _ & Hld' & _).
       pose proof (loaded_jump pls Hgood r' pb n pd _ pr pa lo _ _ pb' (snd t) ps' pa' Hld' Hasc Ep Ep' Hin) as Hj.
       replace (lenN (prog_ops pb) + lenN (flat_map pc_ops pd) + (2 + lenN (postfix e) + N.of_nat (N.to_nat (Z.to_N (sel - 1))))) with (r_pc r') in Hj
         by (rewrite Hpc', Hpc; lia).
-      eexists. exists (set_pc r' (lenN (prog_ops pb'))). split.
-      * rewrite exec_loop_split, Hrun. exact (loop_jump O r' _ Hrt' Hj).
-      * apply Hrel; [reflexivity | apply sfacts_pc; exact Hf'].
+      exists [], (set_pc r' (lenN (prog_ops pb'))). split.
+      * exact (vs_quiet r _ r' [] _ Hrun (vm_steps_one _ _ _ (loop_jump O r' _ Hrt' Hj))).
+      * split; [reflexivity |]. apply Hrel; [reflexivity | apply sfacts_pc; exact Hf'].
   - (* END *)
     rewrite sem_exec_end. cbn [outcome].
     assert (Hop : nthN (l_ops (pg_link (r_prog r))) (r_pc r) = Some OpEnd).
     { pose proof (loaded_plain pls Hgood r pb n pd _ pr pa [] [OpEnd] [] Hld Ep eq_refl) as H.
       change (lenN (@nil opcode)) with 0 in H. rewrite N.add_0_r, <- Hpc in H.
       specialize (H ltac:(intros op [<- | []]; discriminate) 0%nat OpEnd eq_refl). rewrite N.add_0_r in H. exact H. }
-    exists 1%nat. eexists. rewrite (loop_one O false r OpEnd Hrt Hop). cbn [exec_op]. unfold rbind, do_end, rret. split; [reflexivity |].
+    exists [], r, 1%nat. eexists. split; [constructor |]. split; [reflexivity |].
+    rewrite (loop_one O false r OpEnd Hrt Hop). cbn [exec_op]. unfold rbind, do_end, rret. split; [reflexivity |].
     rewrite Hv. cbn [set_pc r_pc r_entry].
     destruct (r_pc r + 1 <? r_entry r); cbn [r_pc r_entry set_cont_pc set_state set_cont];
       match goal with |- context [if ?b then _ else _] => destruct b end; reflexivity.
+  - (* PRINT *)
+    cbn [pc_ops] in Hpf.
+    assert (Hat : code_at r (r_pc r) (print_code es)).
+    { pose proof (loaded_plain pls Hgood r pb n pd _ pr pa [] (print_code es) [] Hld Ep) as H. cbn [pc_ops app] in H.
+      rewrite app_nil_r in H. specialize (H eq_refl). change (lenN (@nil opcode)) with 0 in H. rewrite N.add_0_r, <- Hpc in H.
+      apply H. intros op Hin. unfold print_code in Hin. rewrite in_flat_map in Hin. destruct Hin as (e0 & He0 & Hin).
+      apply in_app_or in Hin. destruct Hin as [Hin | [<- | []]]; [| discriminate].
+      apply expr_op_not_jump. rewrite forallb_forall in Hpure. pose proof (postfix_expr_ops e0 (Hpure e0 He0)) as Hall.
+      rewrite forallb_forall in Hall. exact (Hall op Hin). }
+    pose proof (print_items es st r (tag_line n sr, n) n Hpure Hdeps Hrt Hat ltac:(lia) Hv Hloc Hcol) as Hpi.
+    rewrite sem_exec_print.
+    destruct (sem_print_items O n (tag_line n sr, n) es st) as [st2 [res | c0 |]]; [| exact Hpi | exact I].
+    destruct Hpi as (-> & outs & r2 & Hsteps & Hpr2 & Hpc2 & Hprog & Htr2 & Hv2 & Hsl2 & Hsv & Hsl' & Hstr & Hsc).
+    cbn [outcome]. exists outs, r2. split; [exact Hsteps |]. split; [exact Hpr2 |].
+    assert (Elast : exists c0 x, print_code es = c0 ++ [x] /\ x <> OpEnd).
+    { destruct es as [| e0 es'] using rev_ind; [contradiction |].
+      exists (print_code es' ++ postfix e0), OpPrint. rewrite print_code_app. unfold print_code at 2. cbn [flat_map]. rewrite app_nil_r, <- app_assoc.
+      split; [reflexivity | discriminate]. }
+    destruct Elast as (c0 & x & Ec & Hx).
+    apply (Rel_advance sb n sd _ sr sa pb pd _ pr pa _ _ c0 x Es Ep Hb Hd (gs_print c es Hne_es Hpure Hdeps) Hr Ha Ec Hx);
+      [cbn [pc_ops]; rewrite Hpc2, Hpc; reflexivity |].
+    unfold sfacts. rewrite Hsv, Hsl', Hstr, Hv2, Hsl2. repeat split; try assumption. unfold loaded. rewrite Hprog. exact Hld.
 Qed.
 
 Lemma Forall2_In_l {A B} (R : A -> B -> Prop) : forall l l', Forall2 R l l' -> forall x, In x l -> exists y, In y l' /\ R x y.
@@ -605,18 +769,21 @@ Proof.
     + rewrite Hpc, prog_ops_app, prog_ops_single, lenN_app. unfold lenN. cbn [length]. lia.
 Qed.
 
-(* how a run of the VM must end to match the reference semantics *)
-Definition final (res : sst * halt) (r : rt) : Prop :=
+(* how a run of the VM must end to match the reference semantics: the same texts printed, in the same order, then the
+   same end *)
+Definition final (st : sst) (res : sst * halt) (r : rt) : Prop :=
   match res with
-  | (st', HEnd) => exists m r', exec_loop_x O m false r = (r', Ok (Some EvStopped)) /\ r_vars r' = s_vars st'
-  | (st', HError c _) => exists m er, snd (exec_loop_x O m false r) = Err er /\ ecode er = c
+  | (st', HEnd) => exists outs r1 m r', vm_steps r outs r1 /\ printed st st' outs
+                     /\ exec_loop_x O m false r1 = (r', Ok (Some EvStopped)) /\ r_vars r' = s_vars st'
+  | (st', HError c _) => exists outs r1 m er, vm_steps r outs r1 /\ printed st st' outs
+                           /\ snd (exec_loop_x O m false r1) = Err er /\ ecode er = c
   | _ => True
   end.
 
 Lemma trace_off line st : s_tron st = false -> trace_line line st = (st, EvOk tt).
 Proof. intros H. unfold trace_line. rewrite H. reflexivity. Qed.
 
-Theorem vm_follows_sem : forall fuel k st r, Rel k st r -> final (run O srcl fuel k st) r.
+Theorem vm_follows_sem : forall fuel k st r, Rel k st r -> final st (run O srcl fuel k st) r.
 Proof.
   induction fuel as [| f IH]; intros k st r HR; [exact I |].
   pose proof HR as ((sb & n & sd & sr & sa & pb & pd & pr & pa & Es & Ep & Hb & Hd & Hr & Ha & Ek & Hpc) & Hlt & Hf).
@@ -628,23 +795,25 @@ Proof.
     rewrite Est. fold (tag_line n sr).
     pose proof (stmt_step sb n sd s sr sa pb pd p pr' pa st r Es Ep Hb Hd Hs Hr' Ha Hpc Hf) as Hstep.
     destruct (exec O srcl 200 n s (tag_line n sr, n) st) as [st2 [k' | h]]; cbn [outcome] in Hstep.
-    + destruct Hstep as (m & r2 & Hrun & HR2). specialize (IH k' st2 r2 HR2).
+    + destruct Hstep as (o1 & r2 & Hrun & Hp1 & HR2). specialize (IH k' st2 r2 HR2).
       destruct (run O srcl f k' st2) as [st' [| c ln | | |]]; cbn [final] in *; try exact I.
-      * destruct IH as (m' & r' & Hrun' & Hv'). exists (m + m')%nat, r'. split; [rewrite exec_loop_split, Hrun; exact Hrun' | exact Hv'].
-      * destruct IH as (m' & er & Hrun' & Hc). exists (m + m')%nat, er. split; [rewrite exec_loop_split, Hrun; exact Hrun' | exact Hc].
+      * destruct IH as (o2 & r1 & m & r' & Hrun' & Hp2 & Hstop & Hv'). exists (o1 ++ o2), r1, m, r'.
+        split; [exact (vm_steps_trans _ _ _ _ _ Hrun Hrun') |]. split; [exact (printed_trans _ _ _ _ _ Hp1 Hp2) |]. split; assumption.
+      * destruct IH as (o2 & r1 & m & er & Hrun' & Hp2 & Herr & Hc). exists (o1 ++ o2), r1, m, er.
+        split; [exact (vm_steps_trans _ _ _ _ _ Hrun Hrun') |]. split; [exact (printed_trans _ _ _ _ _ Hp1 Hp2) |]. split; assumption.
     + destruct h as [| c ln | | |]; cbn [final]; try exact I; exact Hstep.
 Qed.
 
-(* the start of a run: RUN clears the variables and enters the program at its first line *)
+(* the start of a run: RUN clears the variables and enters the program at its first line; the cursor is at the left margin *)
 Theorem start_related : forall n ss rest inputs r, srcl = (n, ss) :: rest ->
-  r_pc r = 0 -> r_vars r = vars_empty -> r_tron r = false -> r_slen r = sl -> loaded pls r ->
+  r_pc r = 0 -> r_vars r = vars_empty -> r_tron r = false -> r_slen r = sl -> r_col r = 0 -> loaded pls r ->
   Rel (tag_line n ss, n) (sem_start false inputs) r.
 Proof.
-  intros n ss rest inputs r Es Hpc Hv Ht Hs Hl. destruct (split_match [] n ss rest Es) as (pb & ps & pa & Ep & Hb & Hss & Ha).
+  intros n ss rest inputs r Es Hpc Hv Ht Hs Hc Hl. destruct (split_match [] n ss rest Es) as (pb & ps & pa & Ep & Hb & Hss & Ha).
   inversion Hb; subst pb. split; [| split].
   - exists [], n, [], ss, rest, [], [], ps, pa. cbn [app flat_map]. repeat split; try assumption; try constructor; try (rewrite Hpc; reflexivity).
   - rewrite Hpc. pose proof (start_lt pls [] n ps pa Ep Hne) as H. exact H.
-  - unfold sfacts, sem_start. cbn. repeat split; try assumption. symmetry. exact Hv.
+  - unfold sfacts, sem_start. cbn. repeat split; try assumption; symmetry; assumption.
 Qed.
 
 End Sim.
